@@ -104,6 +104,9 @@ fn request(src: &str) -> String {
     for (i, c) in src.char_indices() {
         let w = c.width().unwrap_or(0);
         let f = (UnicodeXID::is_xid_start(c) as u32) | ((UnicodeXID::is_xid_continue(c) as u32) << 1);
+        // the theorems' only assumption on the supplied tables (`TableOk`): a line feed is not an
+        // identifier character
+        assert!(!(c == '\n' && f != 0), "TableOk violated by the unicode-xid tables");
         let mut g = src[i..].graphemes(true);
         let g1 = g.next().map(|x| x.len()).unwrap_or(0);
         let g2 = g.next().map(|x| x.len()).unwrap_or(0);
